@@ -129,6 +129,29 @@ Order(u) == UNION {{OrderViews(Members[k])[j] : j \in 1..7} : k \in 1..Len(Membe
             \cup {MultiLine(EntrySets[k]) : k \in 1..Len(EntrySets)}
             \cup {Prune(d, w) : d \in {"a", "b", "c"}, w \in {"b", "c", "d"}}
 
+\* ---------------------------------------------------------------- names
+\* the same NAME used for different things in different scopes: named functions (nested, siblings, three levels),
+\* parameters, locals, a function named like a variable elsewhere - whatever links code to names must keep them apart
+Names(u) == {
+   Cat(<<"func helper() {", NL, "return 1", NL, "}", NL, "func outer() {", NL, "func helper() {", NL, "return 10", NL, "}", NL,
+         "return helper() + 1", NL, "}", NL, "print(helper(), outer())", NL, "[helper(), outer()]">>),
+   Cat(<<"func a() {", NL, "func step() {", NL, "return 1", NL, "}", NL, "return step()", NL, "}", NL,
+         "func b() {", NL, "func step() {", NL, "return 2", NL, "}", NL, "return step() * 10", NL, "}", NL, "print(a(), b())", NL, "[a(), b()]">>),
+   Cat(<<"func f() {", NL, "func f() {", NL, "func f() {", NL, "return 3", NL, "}", NL, "return f() + 20", NL, "}", NL, "return f() + 100", NL, "}", NL,
+         "print(f())", NL, "f()">>),
+   Cat(<<"func run(n) {", NL, "func run(n) {", NL, "return n * 2", NL, "}", NL, "if n > 0 {", NL, "return run(n) + 1", NL, "}", NL, "return 0", NL, "}", NL,
+         "print(run(3), run(0))", NL, "run(4)">>),
+   Cat(<<"func mk() {", NL, "return func inner() {", NL, "return 1", NL, "}", NL, "}", NL, "func mk2() {", NL, "return func inner() {", NL, "return 2", NL, "}", NL, "}", NL,
+         "print(mk()(), mk2()())", NL, "[mk()(), mk2()()]">>),
+   Cat(<<"x := 5", NL, "func g(x) {", NL, "func x2(x) {", NL, "return x + 1", NL, "}", NL, "return x2(x) * 2", NL, "}", NL, "func h() {", NL, "x := 7", NL,
+         "func x2() {", NL, "return x", NL, "}", NL, "return x2()", NL, "}", NL, "print(g(1), h(), x)", NL, "[g(x), h()]">>),
+   Cat(<<"func cb() {", NL, "return \"top\"", NL, "}", NL, "l := [1, 2].map(func cb(v) {", NL, "return v * 2", NL, "})", NL, "print(cb(), l)", NL, "l">>),
+   Cat(<<"func t() {", NL, "return 1", NL, "}", NL, "r := try(func() {", NL, "func t() {", NL, "return 2", NL, "}", NL, "return t()", NL, "})", NL, "print(t(), r)", NL, "[t(), r]">>),
+   Cat(<<"func a(v=1) {", NL, "return v", NL, "}", NL, "func b() {", NL, "func a(v=\"x\") {", NL, "return v", NL, "}", NL, "return a()", NL, "}", NL, "print(a(), b())", NL, "[a(), b()]">>),
+   Cat(<<"func a() {", NL, "func a() {", NL, "return 1", NL, "}", NL, "return a", NL, "}", NL, "func b() {", NL, "func a() {", NL, "return 2", NL, "}", NL, "return a", NL, "}", NL,
+         "print(a()(), b()())", NL, "[a()(), b()()]">>)
+ }
+
 \* ---------------------------------------------------------------- scale
 Sizes == {1, 2, 3, 9, 10, 11, 12, 16, 17, 33, 64, 99, 100, 101, 128, 129, 255, 256, 257, 300}
 DepthSizes == {1, 2, 3, 5, 8, 10, 11, 12, 16}
